@@ -17,12 +17,12 @@ import (
 )
 
 type c02hCase struct {
-	Stack   StackCfg `json:"stack"`
-	GiveUp  string   `json:"give_up"` // cancel | timeout
-	Order   []int    `json:"order"`   // 0 = releaser, 1 = canceller
-	Outcome int      `json:"outcome"`
-	Yields  []uint8  `json:"yields"`
-	Par     bool     `json:"par,omitempty"`
+	Stack   StackCfg  `json:"stack"`
+	GiveUp  string    `json:"give_up"` // cancel | timeout
+	Order   []int     `json:"order"`   // 0 = releaser, 1 = canceller
+	Outcome int       `json:"outcome"`
+	Yields  yieldList `json:"yields"`
+	Par     bool      `json:"par,omitempty"`
 }
 
 func runC02H(t *testing.T, c c02hCase) kit.Outcome {
@@ -138,7 +138,7 @@ func TestC02_handoff_parallel(t *testing.T) {
 			stk.Strategy, stk.Limit, stk.Inject = rapid.SampledFrom([]string{"simple", "precise"}).Draw(t, "strategy"), 1, true
 			stk.Evict = give == "cancel"
 			return c02hCase{Stack: stk, GiveUp: give, Order: rapid.Permutation([]int{0, 1}).Draw(t, "order"), Outcome: rapid.IntRange(0, 2).Draw(t, "outcome"),
-				Yields: rapid.SliceOfN(rapid.SampledFrom([]uint8{0, 0, 1, 2, 5}), 0, 10).Draw(t, "yields"), Par: true}
+				Yields: yieldList(rapid.SliceOfN(rapid.SampledFrom([]uint8{0, 0, 1, 2, 5}), 0, 10).Draw(t, "yields")), Par: true}
 		},
 		Run: runC02H, NoShrink: true,
 	})
@@ -170,7 +170,7 @@ func TestC02_handoff_enum_Coop(t *testing.T) {
 		for _, give := range []string{"cancel", "timeout"} {
 			for _, order := range [][]int{{0, 1}, {1, 0}} {
 				for code := kit.Shard; code < total; code += kit.Shards {
-					ys := make([]uint8, k)
+					ys := make(yieldList, k)
 					x := code
 					for i := range ys {
 						ys[i] = vals[x%len(vals)]
